@@ -764,7 +764,7 @@ PROPS["C01"] = {
                   "theorems are over all route sets/registration orders/paths; the model is tied to tree.go/leaf.go/router.go by "
                   "a differential check on random and small-scope-exhaustive route sets at both the Flame and the Tree level.",
     "level_note": "Trusted: Lean kernel; hand-written model tied by differential testing; regexp is a parameter.",
-    "props_modules": ["Flamego.Props.C01", "Flamego.Proofs.TreeMatch", "Flamego.Proofs.TreeAdd", "Flamego.Proofs.ParsedOfWF"],
+    "props_modules": ["Flamego.Props.C01", "Flamego.Props.C01Router", "Flamego.Proofs.TreeMatch", "Flamego.Proofs.TreeAdd", "Flamego.Proofs.ParsedOfWF", "Flamego.Proofs.RouterBuild"],
     "suite": "C01",
     "compare": lambda s, R, M: rp.cmp_dispatch(s, R, M),
     "stats": rp.router_stats(lambda op, r, m, n: r.startswith("h ") and n >= 2,
